@@ -144,7 +144,13 @@ def load_findings():
     if not os.path.exists(path):
         return []
     with open(path) as f:
-        return json.load(f).get("findings", [])
+        fs = json.load(f).get("findings", [])
+    for f_ in fs:
+        kf = f_.get("keys_file")
+        if kf:
+            with open(os.path.join(VERIF, kf)) as fh:
+                f_["keys"] = list(f_.get("keys", [])) + [ln.split()[0] for ln in fh if ln.strip() and not ln.startswith("#")]
+    return fs
 
 
 def run_check(pid, tier, seed, only_space=None, collect=False, time_cap=None):
